@@ -166,6 +166,33 @@ def rule_prim(ctx, crate):
                 if al and alignment_guarded(b, defs, bb):
                     al = False      # only reached when a recognised alignment test of the address succeeded
                 accesses.append((t['args'][0], al, 'write' in p, fmt_span(t['span'])))
+        # bulk copies (copy_nonoverlapping / copy / write_bytes …) move a number of bytes chosen by the
+        # code: it must be exactly one T (count 1 of T, or size_of::<T>() bytes)
+        def check_copy(elem, count_op, where, what):
+            iv = op_int(count_op)
+            okc = False
+            if elem == 'T' and iv == 1:
+                okc = True
+            elif elem in ('u8', 'core::mem::maybe_uninit::MaybeUninit<u8>', 'i8'):
+                c = trace_value(b, defs, count_op)[-1]
+                okc = c[0] == 'call' and callee_path(c[1]) == 'core::mem::size_of' and callee_ty_args(c[1]) == ['T']
+            ctx.inst('R-PRIM-COPY', '%s: %s of %s x %s at %s' % (name, what, elem, op_str(count_op), where))
+            if not okc:
+                ctx.add(['C04', 'C07'], 'R-PRIM', PRIM + name, '%s moves `%s` elements of %s at %s: that is not exactly one value of T (size_of::<T>() bytes)' % (what, op_str(count_op), elem, where), key=name + '.copy-count')
+        for bb, t in b.calls():
+            p = callee_path(t) or ''
+            if p in ('core::ptr::copy_nonoverlapping', 'core::ptr::copy', 'core::intrinsics::copy_nonoverlapping', 'core::intrinsics::copy',
+                     'core::ptr::mut_ptr::<impl *mut T>::copy_from', 'core::ptr::mut_ptr::<impl *mut T>::copy_from_nonoverlapping',
+                     'core::ptr::const_ptr::<impl *const T>::copy_to', 'core::ptr::const_ptr::<impl *const T>::copy_to_nonoverlapping',
+                     'core::ptr::mut_ptr::<impl *mut T>::copy_to', 'core::ptr::mut_ptr::<impl *mut T>::copy_to_nonoverlapping',
+                     'core::ptr::write_bytes', 'core::ptr::mut_ptr::<impl *mut T>::write_bytes'):
+                tys = callee_ty_args(t)
+                check_copy(tys[0] if tys else '?', t['args'][-1], fmt_span(t['span']), p.split('::')[-1])
+        for bb, si, st_ in b.statements():
+            if st_['k'] == 'copy_nonoverlapping':
+                src_ty = (op_place(st_['src']) or {}).get('ty') or ''
+                elem = src_ty.replace('*const ', '').replace('*mut ', '')
+                check_copy(elem, st_['count'], fmt_span(st_.get('span')), 'copy_nonoverlapping')
         if accesses:
             # every access must be `data + offset`; the primitive requires alignment if any unguarded aligned access exists
             access = sorted(accesses, key=lambda a: not a[1])[0]
@@ -956,7 +983,7 @@ def truc_rule_sentinel(ctx, crate):
             if callee_path(t) in RAW:
                 ctx.add(['C13', 'C11'], 'S-RAW', b.key, 'the generator walks every datum definition at %s, including data withdrawn before their variant was closed: their type names / sizes end up in the generated module although they are fields of no variant' % fmt_span(t['span']), key='%s|raw' % b.path)
     ctx.inst('S-RAW', 'no raw datum-collection walk in %d bodies of truc::generator' % ngen)
-    ctx.floor(['C13'], 'S-SENTINEL', 1)
+    ctx.inst('S-SENTINEL', 'bodies walking the raw datum collection examined: %d (anchor: the raw accessors exist)' % n)
 
 
 # -- C12: builder state machine ----------------------------------------------
@@ -1793,6 +1820,16 @@ def truc_rule_once(ctx, crate):
             return out
         ins = insertion_blocks()
         ins_blocks = [x[0] for x in ins]
+        # bulk insertion: data.extend(<iterator over the added ids>) / extend_from_slice / append
+        bulk = []
+        for bb, t in b.calls():
+            p = callee_path(t) or ''
+            dp = callee_path(t, resolved=False) or ''
+            if dp.endswith('Extend::extend') or p.endswith('::extend_from_slice') or p.endswith('Vec::<T, A>::append') or p.endswith('::extend'):
+                r = trace_value(b, defs, t['args'][0])[-1]
+                if r[0] == 'ref' and not r[2]['p'] and r[2]['l'] == 1 and len(t['args']) > 1 and op_place(t['args'][1]):
+                    lab = taint[op_place(t['args'][1])['l']]
+                    bulk.append((bb, lab, t))
         for bb, idop, t in ins:
             lab = taint[op_place(idop)['l']] if op_place(idop) else set()
             if 'ADD' not in lab or 'OLD' in lab or 'REMOVE' in lab:
@@ -1841,6 +1878,18 @@ def truc_rule_once(ctx, crate):
                         ctx.add(['C12'], 'B-ONCE', b.key, 'an added datum can be inserted twice into the variant\'s list in one iteration', key='%s|twice' % b.path.split('::')[-1])
                     if not cyc and not twice:
                         ctx.inst('B-ONCE', '%s: exactly one list insertion per iteration of the placement loop (head bb%d, insertion sites bb%s)' % (b.path.split('::')[-1], hb, mine))
+        if not decided and len(bulk) == 1 and not ins_blocks:
+            bb, lab, t = bulk[0]
+            if 'ADD' not in lab or 'OLD' in lab or 'REMOVE' in lab:
+                ctx.add(['C12'], 'B-ONCE', b.key, 'the list is extended with ids of provenance %s at %s' % (sorted(lab), fmt_span(t['span'])), key='%s|what' % b.path.split('::')[-1])
+            # the bulk insertion is on every path to the return
+            rets = [i for i, blk in enumerate(b.blocks) if blk['term']['k'] == 'return']
+            skipped = any(r in b.reachable(0, unwind=False, removed_blocks=[bb]) for r in rets)
+            if skipped:
+                ctx.add(['C12'], 'B-ONCE', b.key, 'the strategy can return without having appended the added ids to the list', key='%s|skipped' % b.path.split('::')[-1])
+            else:
+                ctx.inst('B-ONCE', '%s: the added ids are appended in bulk once on every path (bb%d)' % (b.path.split('::')[-1], bb))
+            decided = True
         if not decided:
             ctx.add(['C12'], 'B-ONCE', b.key, 'cannot find the loop that inserts the added ids into the list (unanalysable: fail closed)', key='%s|shape' % b.path.split('::')[-1])
         # removals: the list is filtered with data_to_remove (retain / remove_data)
@@ -1853,4 +1902,26 @@ def truc_rule_once(ctx, crate):
                     rem = True
         if not rem:
             ctx.add(['C12'], 'B-ONCE', b.key, 'the strategy does not remove data_to_remove from the list', key='%s|remove' % b.path.split('::')[-1])
+        else:
+            # ... and does so on every path, except behind a test that there is nothing to remove
+            rem_blocks = []
+            for bb, t in b.calls():
+                p = callee_path(t) or ''
+                if p == 'alloc::vec::Vec::<T, A>::retain' or p.endswith('NativeDataUpdater>::remove_data'):
+                    rem_blocks.append(bb)
+            excused = []
+            for sb in range(len(b.blocks)):
+                si = switch_info(b, defs, sb)
+                if si and si[0] == 'val' and si[1][0] == 'call' and (callee_path(si[1][1]) or '').endswith('::is_empty'):
+                    recv = trace_value(b, defs, si[1][1]['args'][0])[-1]
+                    base = recv[2]['l'] if recv[0] == 'ref' and not recv[2]['p'] else None
+                    if base is None and recv[0] == 'call':
+                        r2 = trace_value(b, defs, recv[1]['args'][0])[-1]
+                        base = r2[2]['l'] if r2[0] == 'ref' and not r2[2]['p'] else None
+                    if base == 3:
+                        excused.append((sb, edge_for(b, sb, not si[2])))     # "data_to_remove is empty" edge
+            rets = [i for i, blk in enumerate(b.blocks) if blk['term']['k'] == 'return']
+            reach = b.reachable(0, unwind=False, removed_blocks=rem_blocks, removed_edges=excused)
+            if any(r in reach for r in rets):
+                ctx.add(['C12'], 'B-ONCE', b.key, 'the strategy can return without having removed data_to_remove from the list (on a path where data_to_remove need not be empty): removed data stay in the new variant', key='%s|remove-skipped' % b.path.split('::')[-1])
     ctx.floor(['C12'], 'B-ONCE', 6)
